@@ -202,8 +202,20 @@ def _pad(eng, v, width):
     return str_method(eng, s, "zfill", [width], {}) if width else s
 
 
+CUM_DAYS = [0, 31, 59, 90, 120, 151, 181, 212, 243, 273, 304, 334]
+
+
 def day_of_year(eng, v):
     y, m, d = v.fields[0], v.fields[1], v.fields[2]
+    if not is_sym(m):
+        # month known: days before the month + day (+1 after February in leap years; one fork on the leap rule)
+        yd = eng.op("Add", CUM_DAYS[m - 1], d)
+        if m > 2:
+            leap = eng.and_(eng.cmp("Eq", eng.op("Mod", y, 4), 0),
+                            eng.or_(eng.cmp("NotEq", eng.op("Mod", y, 100), 0), eng.cmp("Eq", eng.op("Mod", y, 400), 0)))
+            if eng.truth(leap):
+                yd = eng.op("Add", yd, 1)
+        return yd
     jan1 = m_datetime(eng, y, 1, 1)
     return eng.op("Add", eng.op("Sub", eng.op("FloorDiv", v.us, DAY_US), eng.op("FloorDiv", jan1.us, DAY_US)), 1)
 
